@@ -21,6 +21,12 @@ CHECKS = {
  "C19": (True, "exploration", "deterministic simulation: seeded schedules of VMs with different error languages; twin run alone vs interleaved",
    "Goroutines with error languages 0/1/2 evaluate mostly rejected inputs under the seeded scheduler with preemption points between the language write and read; each error text must be purely in its VM's language and equal the text the same input gives alone. Line/column/quoted-line/caret arithmetic is monitored on the rejected inputs that occur, not claimed as covered.",
    "Decides the 'a VM's choice never changes another VM's messages' clause and single-language purity; geometry is monitored only on generated inputs.", "DESIGN.md §4 C19", ENGINE_SCHED),
+ "C09": (True, "fault_enumeration", "deterministic simulation: crash/restart at every statement boundary with only JSON + generator bytes surviving; twin run crashed vs uncrashed",
+   "A simulated host snapshots {variables as JSON, generator state} after every statement; inside each generated session EVERY crash point is enumerated (plus the lost-write fault: an older snapshot survives), a fresh VM is restored from the durable bytes and the remaining statements are compared field by field with the run that never crashed; every snapshot is also checked for structural round trip and for error-on-unrepresentable (cycles, non-finite floats).",
+   "Sessions come from the generator (alias-free by skip-and-count: JSON cannot carry aliasing). The operation counter is not compared (cached and lazily compiled bodies differ by one halt instruction).", "DESIGN.md §4 C09", ENGINE_SESSION),
+ "C10": (True, "fault_enumeration", "deterministic simulation: stored-byte fault injection (torn/short writes, bit flips, stale schema, garbage) on real snapshots; decoded values driven through an operation battery",
+   "Documents written by real sessions are damaged the way disks and version skew damage them; for documents up to 160 bytes every truncation length and every single-bit flip is enumerated, larger ones are sampled, plus stale-schema faults on the JSON tree and garbage sectors. Each document must be rejected or decode to values on which printing, repr, truthiness, equality, re-serialisation and a battery of scripts are crash-free (worker isolation makes fatal errors observable).",
+   "The battery is a fixed list of 8 direct operations and 42 scripts (a seeded third per value shape, once per distinct shape per run). 'VM internal error' results are errors, not crashes.", "DESIGN.md §4 C10", ENGINE_SESSION),
 }
 
 NA = {
